@@ -166,7 +166,7 @@ Proof.
     rewrite PK. cbn [negb].
     assert (HU : existsb (str_eqb (la_name a)) (map fst (x :: acc)) = false).
     { cbn [map] in Hu. exact (unique_not_in _ _ _ Hu). }
-    rewrite (attr_body_step nsf a (fun _ _ => SStop OutOfFuel) (x :: acc) TL f Ha Hn HU).
+    refine (eq_trans (attr_body_step nsf a (fun _ _ => SStop OutOfFuel) (x :: acc) TL f Ha Hn HU) _).
     subst TL. rewrite (IH ((x :: acc) ++ [attr_ev a]) f ws empty rest Has Hns).
     + rewrite <- app_assoc. reflexivity.
     + rewrite map_app. cbn [map attr_ev fst]. rewrite <- app_assoc. exact Hu.
@@ -174,6 +174,11 @@ Proof.
     + exact Hw.
     + cbn [length] in Hf. lia.
 Qed.
+
+Lemma attrs_len : forall atts, (length atts <= length (flat_map render_attr atts))%nat.
+Proof. induction atts as [|b atts IH]; cbn [length flat_map]; [lia|].
+  assert (1 <= length (render_attr b))%nat by (unfold render_attr; rewrite !app_length; cbn [length]; lia).
+  rewrite app_length. lia. Qed.
 
 (* ---- start tags *)
 Lemma scan_starttag_ok : forall nsf n atts ws empty rest,
@@ -214,6 +219,5 @@ Proof.
     + discriminate.
     + exact Hw.
     + rewrite !app_length. cbn [length]. unfold attr_body. rewrite !app_length. cbn [length].
-      clear. induction atts as [|b atts IH]; cbn [length flat_map]; [lia|].
-      rewrite app_length. unfold render_attr. rewrite !app_length. cbn [length]. lia.
+      pose proof (attrs_len atts). lia.
 Qed.
